@@ -307,6 +307,18 @@ impl<'a> PGen<'a> {
                 }
                 6 => E::Neg(Box::new(self.expr(T::Num, d1))),
                 7 => cond(self.expr(T::Bool, d1), self.expr(T::Num, d1), self.expr(T::Num, d1)),
+                8 if self.rng.chance(1, 6) => {
+                    // an aggregate over a list of tens or hundreds of thousands of non-integral
+                    // numbers, built and consumed in place (far end of the size axis)
+                    let n = *self.rng.pick(&[33_000i64, 50_000, 70_000, 130_000, 400_000]);
+                    let xs = match self.rng.below(3) {
+                        0 => bin("/", call(id("range"), vec![num(n)]), num(7)),
+                        1 => bin("*", call(id("range"), vec![num(n)]), numf("0.1")),
+                        _ => bin("+", bin("/", call(id("range"), vec![num(n)]), num(3)), numf("0.3")),
+                    };
+                    let f = *self.rng.pick(&["sum", "avg", "sum", "avg", "max", "min", "median", "len"]);
+                    call(id(f), vec![xs])
+                }
                 8 => {
                     let f = *self.rng.pick(&["len", "sum", "max", "min", "avg", "prod"]);
                     call(id(f), vec![self.expr(T::LNum, d1)])
